@@ -36,20 +36,25 @@ package provider
 //   …/not-advertised/provide-once-key,     #18 a key queued by ProvideOnce (not in the keystore) is
 //   restart/not-resumed/provide-once-key       dropped when the reprovide of its region empties the
 //                                              provide queue under the region's prefix
-//   reprovide/gap-exceeds-bound/               a kept key skips a cycle after other keys were handed to
-//   start-after-first-cycle-inside-window      StartProviding later than one interval after the start: a
-//                                              new key outside every scheduled prefix is scheduled under the
-//                                              average prefix length, which unschedules the longer prefixes
-//                                              below it; when the slot of the new prefix has passed in this
-//                                              cycle and theirs had not, their keys wait for the next cycle
-//                                              (witness: unit outage, thorough tier, seed 1, case 195)
-//   reprovide/gap-exceeds-bound/               the schedule held a single region (timer armed for a full
-//   schedule-grown-from-one-region-…           interval) when a later StartProviding added regions: at the
-//                                              next alarm handleReprovide takes every added region for late
-//                                              (queued, reprovided at once) and leaves the cursor where it is;
-//                                              the reschedule after such a catch-up moves the cursor to a later
-//                                              region, the regions in between skip their slot of this cycle
-//                                              (witness: unit outage, thorough tier, seed 1, case 373)
+//   reprovide/gap-exceeds-bound/           #27 a kept key skips a cycle: inside the window a StartProviding
+//   start-after-first-cycle-inside-window      call of other keys replaced its scheduled prefix by a shorter
+//                                              one (observed by comparing the schedule before and after the
+//                                              call): a new key outside every scheduled prefix is scheduled
+//                                              under the average prefix length, which unschedules the longer
+//                                              prefixes below it; when the slot of the new prefix has passed in
+//                                              this cycle and theirs had not, their keys wait for the next cycle
+//                                              (needs regions reprovided before, i.e. prefixes of mixed length;
+//                                              witnesses: unit outage, thorough tier, seed 1, cases 195 and 595)
+//   reprovide/gap-exceeds-bound/           #28 the schedule held a single region (observed white-box), so the
+//   schedule-grown-from-one-region             timer had been armed for its slot up to a full interval before,
+//                                              when a StartProviding added regions whose slots of this cycle
+//                                              had passed: at the alarm handleReprovide tells late regions by
+//                                              the time the timer has been running, takes every added region
+//                                              for late (queued, reprovided at once) and leaves the cursor
+//                                              where it is, cycle after cycle; the reschedule after such a
+//                                              catch-up moves the cursor to a later region, the regions in
+//                                              between skip their slot of this cycle
+//                                              (witnesses: unit outage, thorough tier, seed 1, cases 373, 685)
 // A miss that follows an exploration stopped at the provider's cap of 64 lookups is documented
 // behaviour (bounded exploration, heals in the next cycle): counted as an observation, not judged;
 // the generator keeps clustered swarms <= 600 peers and growth <= x4 per step to stay below the cap.
@@ -308,8 +313,8 @@ type vC17Sim struct {
 	blocked   [][2]time.Duration // outages: obligations suspended
 	shortOut  [][2]time.Duration // outages shorter than the smallest offline delay: windows across them get a later deadline
 	deferred  []vC17Deferred     // keys handed over during an outage and still queued when it ends
-	startAt   []time.Duration    // times of the StartProviding calls
-	oneRegion time.Duration      // > 0: a StartProviding call at this time (>= one interval after the start) found a schedule of one region
+	merges    []vC17Merge        // scheduled prefixes replaced by a shorter one during a StartProviding call
+	oneRegion time.Duration      // > 0: the StartProviding call at this time found a schedule of one region and added more
 	nGCP      int
 	nSend     int
 	nSendFail int
@@ -577,7 +582,6 @@ func (s *vC17Sim) kept(k int32) bool {
 func (s *vC17Sim) start(p *SweepingProvider, force bool, keys []int32) {
 	t := s.now()
 	s.mu.Lock()
-	s.startAt = append(s.startAt, t)
 	for _, k := range keys {
 		m := s.km(k)
 		if !s.kept(k) {
@@ -589,9 +593,11 @@ func (s *vC17Sim) start(p *SweepingProvider, force bool, keys []int32) {
 	}
 	s.mu.Unlock()
 	s.c.Logf("+%v StartProviding(force=%v, %d keys)", t.Round(time.Millisecond), force, len(keys))
+	before := s.scheduleKeys(p)
 	if err := p.StartProviding(force, s.mhs(keys)...); err != nil {
 		s.apiErr = append(s.apiErr, fmt.Sprintf("StartProviding: %v", err))
 	}
+	s.noteMerges(t, before, s.scheduleKeys(p))
 }
 
 func (s *vC17Sim) once(p *SweepingProvider, keys []int32) {
@@ -848,6 +854,52 @@ type vC17Deferred struct {
 	note   string
 }
 
+// vC17Merge: during a StartProviding call at time t the scheduled prefix `deep` disappeared from the
+// schedule and the shorter prefix `short` (a proper prefix of it) was there afterwards.
+type vC17Merge struct {
+	t           time.Duration
+	deep, short string
+}
+
+// scheduleKeys lists the scheduled region prefixes.
+func (s *vC17Sim) scheduleKeys(p *SweepingProvider) []string {
+	p.scheduleLk.Lock()
+	defer p.scheduleLk.Unlock()
+	var out []string
+	for _, k := range keyspace.AllKeys(p.schedule, p.order) {
+		out = append(out, string(k))
+	}
+	return out
+}
+
+// noteMerges compares the schedule before and after a StartProviding call made at time t.
+func (s *vC17Sim) noteMerges(t time.Duration, before, after []string) {
+	if len(before) == 1 && len(after) > 1 {
+		s.mu.Lock()
+		if s.oneRegion == 0 {
+			s.oneRegion = t
+		}
+		s.mu.Unlock()
+	}
+	in := map[string]bool{}
+	for _, a := range after {
+		in[a] = true
+	}
+	for _, b := range before {
+		if in[b] {
+			continue
+		}
+		for _, a := range after {
+			if len(a) < len(b) && strings.HasPrefix(b, a) {
+				s.mu.Lock()
+				s.merges = append(s.merges, vC17Merge{t: t, deep: b, short: a})
+				s.mu.Unlock()
+				break
+			}
+		}
+	}
+}
+
 type vC17Verdict struct {
 	capFail                                                 int
 	provideJudged, windowsJudged, stopJudged, catchupJudged int
@@ -1039,20 +1091,22 @@ func (s *vC17Sim) evaluate(end time.Duration, windows bool) vC17Verdict {
 						cnt, sig, extra := s.allocSig(&v, k, x, hi)
 						report(cnt, "reprovide-window", sig, "kept since +%v: advertised inside the window, but never to all healthy peers among its r nearest: %s%s", sg.s.Round(time.Second), s.describe(k, x, hi), extra)
 					} else {
-						// input class of its own: other keys were handed to StartProviding inside the window,
-						// later than one interval after the start (the schedule holds region prefixes of
-						// different lengths by then; scheduling a new prefix replaces the longer ones under it)
+						// input class of its own (finding #27): inside the window a StartProviding call of other
+						// keys replaced the scheduled prefix of this key by a shorter one (a new key outside every
+						// scheduled prefix is scheduled under the average prefix length, which unschedules the
+						// longer prefixes below it)
 						sig, during := "reprovide/gap-exceeds-bound", ""
-						for _, tc := range s.startAt {
-							if tc >= vC17Interval && tc > x && tc < hi {
+						bits := vC17Bits(&s.pool.keys[k].kad, 64)
+						for _, mg := range s.merges {
+							if mg.t > x && mg.t < hi && strings.HasPrefix(bits, mg.deep) {
 								sig += "/start-after-first-cycle-inside-window"
-								during = fmt.Sprintf("; StartProviding of other keys at +%v", tc.Round(time.Second))
+								during = fmt.Sprintf("; StartProviding of other keys at +%v replaced the scheduled prefix %q of this key by %q", mg.t.Round(time.Second), mg.deep, mg.short)
 								break
 							}
 						}
-						if during == "" && s.oneRegion > 0 && s.oneRegion < x {
-							sig += "/schedule-grown-from-one-region-after-first-cycle"
-							during = fmt.Sprintf("; the schedule held one region (timer armed for a full interval) when StartProviding added more at +%v", s.oneRegion.Round(time.Second))
+						if during == "" && s.oneRegion > 0 && s.oneRegion < hi {
+							sig += "/schedule-grown-from-one-region"
+							during = fmt.Sprintf("; the schedule held one region (timer armed for its slot long before) when StartProviding added more at +%v", s.oneRegion.Round(time.Second))
 						}
 						report(&v.gapFail, "reprovide-window", sig, "kept since +%v: no ADD_PROVIDER at all during %v (= interval %v + max delay %v + slack %v%s): %s%s", sg.s.Round(time.Second), hi-x, vC17Interval, vC17MaxDelay, slack, across, s.describe(k, x, hi), during)
 					}
@@ -1703,16 +1757,11 @@ func TestVerif_C17_outage(t *testing.T) {
 					if err := prov.ProvideOnce(sim.mhs(x1)...); err != nil {
 						c.Fail("api-error", "ProvideOnce: %v", err)
 					}
-					one := sim.scheduleSize(prov) == 1
-					sim.mu.Lock()
-					sim.startAt = append(sim.startAt, sim.now())
-					if one && sim.now() >= vC17Interval {
-						sim.oneRegion = sim.now()
-					}
-					sim.mu.Unlock()
+					before, tc := sim.scheduleKeys(prov), sim.now()
 					if err := prov.StartProviding(c.R.Intn(2) == 0, sim.mhs(x2)...); err != nil {
 						c.Fail("api-error", "StartProviding: %v", err)
 					}
+					sim.noteMerges(tc, before, sim.scheduleKeys(prov))
 				}
 				for sim.now() < u {
 					step := 10 * time.Minute
@@ -1729,12 +1778,11 @@ func TestVerif_C17_outage(t *testing.T) {
 					if handover && x3 == nil && offlineAt.Load() != 0 && prov.isOffline() && u-sim.now() > time.Minute {
 						x3 = fresh(10 + c.R.Intn(31))
 						c.Logf("+%v during the outage (provider Offline since +%v): StartProviding(%d fresh keys)", sim.now().Round(time.Millisecond), time.Duration(offlineAt.Load()).Round(time.Second), len(x3))
-						sim.mu.Lock()
-						sim.startAt = append(sim.startAt, sim.now())
-						sim.mu.Unlock()
+						before, tc := sim.scheduleKeys(prov), sim.now()
 						if err := prov.StartProviding(false, sim.mhs(x3)...); err != nil {
 							c.Fail("api-error", "StartProviding: %v", err)
 						}
+						sim.noteMerges(tc, before, sim.scheduleKeys(prov))
 						c.Obs("keys_started_while_offline", len(x3))
 					}
 				}
